@@ -120,9 +120,12 @@ func otlpExpected(w *workload, c otlpCfg) []rec {
 			add(s.Name, tg, float64(len(s.Members)), "set")
 		case 2:
 			if asGauge {
-				if len(s.histF) != 0 {
+				if s.IsHist {
 					for b, cnt := range s.histF {
 						add(s.Name+".histogram", otlpTags(s.Tags, s.Source, c.ResourceKeys, "le:"+fmtBound(b)), float64(cnt), "timer.histogram")
+					}
+					for _, suffix := range allTimerSubs() {
+						out = append(out, rec{Name: s.Name + "." + suffix, Tags: tg, Class: gsdSummary, Ser: i, Forbidden: true})
 					}
 					continue
 				}
@@ -138,6 +141,13 @@ func otlpExpected(w *workload, c otlpCfg) []rec {
 			hc := "timer.hist."
 			if s.IsHist {
 				hc = "timer.gsdhist."
+				if len(s.histF) == 0 {
+					// bucket limit 0: nothing at all, in particular no bucket-less histogram datapoint
+					for _, field := range []string{"count", "sum", "min", "max"} {
+						out = append(out, rec{Name: s.Name + "\x01" + field, Tags: tg, Class: "timer.gsdhist-limit0-datapoint", Ser: i, Forbidden: true})
+					}
+					continue
+				}
 			}
 			add(s.Name+"\x01count", tg, float64(len(s.Values)), hc+"count")
 			sum, mn, mx := 0.0, math.Inf(1), math.Inf(-1)
